@@ -533,10 +533,14 @@ func wideCandidates(rng *hx.Rng, thorough bool) []*wcand {
 	// slices, maps, nestings of those, references to the enclosing struct = SELF), each with tags of its kind; these are
 	// emitted and type-checked one struct at a time (texpr: emitted text and compile status against the Lean typing judgement)
 	kindTags := map[string][]string{
-		"num":   {"", "required", "min=1", "max=100", "gt=0,lte=9", "default=3", "min=1,max=5,required", "gte=2.5", "max=300", "min=-1", "max=4294967296", "max=9223372036854775808", "lt=1.0"},
+		"num":   {"", "required", "min=1", "max=100", "gt=0,lte=9", "default=3", "min=1,max=5,required", "gte=2.5", "max=300", "min=-1", "max=4294967296", "max=9223372036854775808", "lt=1.0",
+			"positive", "length=2", "gt=-0.5", "lte=+7", "min=007", "max=2.50", "nonnegative,negative"},
 		"bool":  {"", "required", "default=true", "prefault=false", "min=1"},
-		"other": {"", "required", "min=1", "max=3", "required,min=1", "nilable"},
-		"str":   {"", "nilable,min=1", "prefault=x", "min=1.5", "gt=1", "uuid,email", "enum=a b,required", "enum=a", "regex=^a$,uuid", "default=a b c", "email,email"},
+		// JSON-valued default= / prefault= parameters (generateSliceValue / generateMapValue)
+		"json": {`default=["a","b"]`, `prefault=[]`, `default=[1,2,3]`, `default=["a",1,true]`, `prefault=[true,false]`, `default=[-5]`, `required,default=["x"],min=1`, `default={"k":"v"}`, `default=[1.5]`, `default=abc`},
+		"other": {"", "required", "min=1", "max=3", "required,min=1", "nilable", "length=2", "nonempty", "max=1.5"},
+		"str":   {"", "nilable,min=1", "prefault=x", "min=1.5", "gt=1", "uuid,email", "enum=a b,required", "enum=a", "regex=^a$,uuid", "default=a b c", "email,email",
+			"url", "url,min=3", "required,url", "uuid,url", "enum=a b,min=2", "enum=a b,url", "length=3", "nonempty", "length=x", "positive"},
 	}
 	kinds := []struct{ ty, cls string }{
 		{"int8", "num"}, {"int16", "num"}, {"int32", "num"}, {"uint", "num"}, {"uint8", "num"}, {"uint16", "num"}, {"uint32", "num"}, {"uint64", "num"},
@@ -545,6 +549,9 @@ func wideCandidates(rng *hx.Rng, thorough bool) []*wcand {
 		{"complex128", "other"}, {"time.Time", "other"}, {"*time.Time", "other"}, {"[]time.Time", "other"}, {"Inner", "other"}, {"*Inner", "other"}, {"[]Inner", "other"}, {"[]*Inner", "other"},
 		{"map[string]Inner", "other"}, {"map[string]*Inner", "other"}, {"[]string", "other"}, {"[]*string", "other"}, {"[][]int", "other"}, {"*[]int", "other"}, {"*[]*Inner", "other"},
 		{"map[string]int", "other"}, {"map[string][]int", "other"}, {"map[string]map[string]bool", "other"}, {"*map[string]string", "other"}, {"map[int]string", "other"}, {"**int", "other"},
+		{"map[string]*time.Time", "other"}, {"map[string]*string", "other"}, {"map[string]*[]int", "other"}, {"map[string]time.Time", "other"}, {"any", "other"}, {"[]any", "other"},
+		{"map[string]any", "other"}, {"*map[string]*Inner", "other"}, {"[]*time.Time", "other"}, {"map[string][]*Inner", "other"}, {"[]map[string]int", "other"},
+		{"[]string", "json"}, {"[]int", "json"}, {"[]bool", "json"}, {"[]int64", "json"}, {"*[]string", "json"}, {"[]*string", "json"}, {"map[string]string", "json"},
 		{"*SELF", "other"}, {"[]SELF", "other"}, {"[]*SELF", "other"}, {"map[string]SELF", "other"}, {"map[string]*SELF", "other"}, {"[][]*SELF", "other"}, {"*[]SELF", "other"},
 	}
 	for _, k := range kinds {
